@@ -116,7 +116,8 @@ def Shows (dec : String → G) (cw : String → Nat) (fi : FrameIn) (e : Emu) : 
    else e.mode.dectcem = false)
 
 /-- What the composition asks of a frame beyond C01's `FrameInOk`: every grapheme has width ≤ 2 and,
-    when its width is positive, at least one byte; hyperlink parameter strings contain no `;`; the
+    when its width is positive, at least one byte (until the F112b repair, /repo 3525279, also: hyperlink
+    parameter strings contain no `;` — now `render()` cuts the field, and the composition theorems take `LpOk dec`); the
     cursor shape value fits a CSI parameter. -/
 def EmuFrameOk (dec : String → G) (cw : String → Nat) (fi : FrameIn) : Prop :=
   (∀ r ∈ fi.next, ∀ c ∈ r, CellOk dec cw c) ∧ fi.cursor.style ≤ 65535
